@@ -42,13 +42,14 @@ func (t *Trie) Find(method string, path string) (*Template, bool) {
 
 	path = strings.TrimPrefix(path, "/")
 
-	return dfs(n, path, path, false)
+	return dfs(n, path, path, false, false)
 }
 
-func dfs(n *node, orig, path string, last bool) (*Template, bool) {
+// wild tells whether the component that led to n was consumed by a wildcard rather than matched by a literal.
+func dfs(n *node, orig, path string, last, wild bool) (*Template, bool) {
 	// if this is the end, find the appropriate template without going deeper
 	if last {
-		return dfsLeaf(n, orig)
+		return dfsLeaf(n, orig, wild)
 	}
 
 	component := path
@@ -59,7 +60,7 @@ func dfs(n *node, orig, path string, last bool) (*Template, bool) {
 
 	// try matching literal first since its the most specific
 	if n.literals[component] != nil {
-		return dfs(n.literals[component], orig, path, slash == -1)
+		return dfs(n.literals[component], orig, path, slash == -1, false)
 	}
 
 	// then literal with verb if this is the last component
@@ -75,19 +76,24 @@ func dfs(n *node, orig, path string, last bool) (*Template, bool) {
 
 	// then wildcards
 	if n.wildcard != nil {
-		return dfs(n.wildcard, orig, path, slash == -1)
+		return dfs(n.wildcard, orig, path, slash == -1, true)
 	}
 
 	if n.multiWildcard != nil {
-		return dfs(n.multiWildcard, orig, "", true)
+		return dfs(n.multiWildcard, orig, "", true, true)
 	}
 
 	return nil, false
 }
 
-func dfsLeaf(n *node, orig string) (*Template, bool) {
+func dfsLeaf(n *node, orig string, wild bool) (*Template, bool) {
 	if n.tmpl != nil {
 		return n.tmpl, true
+	}
+
+	if !wild {
+		// a literal matched the whole last component, so the path carries no verb beyond it
+		return nil, false
 	}
 
 	// wildcards might've consumed the verb, additionally check if the original path matches any verb here
